@@ -17,11 +17,13 @@ import (
 	"context"
 	"errors"
 	"fmt"
+	"reflect"
 	"strconv"
 	"strings"
 	"sync/atomic"
 	"testing/synctest"
 	"time"
+	"unsafe"
 
 	"github.com/insomniacslk/dhcp/dhcpv4"
 	"github.com/insomniacslk/dhcp/dhcpv4/nclient4"
@@ -214,9 +216,41 @@ func (c cl6) close() error             { return c.c.Close() }
 func (c cl6) reqBytes(x uint32) []byte { return req6(x).ToBytes() }
 func (c cl6) destOK(a any) bool        { return a == any(clDest6) }
 
+// Every other client logs, the way an application that debugs its DHCP traffic runs it:
+// nclient6 with WithLogDroppedPackets and a logger that renders every message with
+// Summary() (what WithDebugLogger does, minus the writing to stderr), nclient4 with
+// WithLogger(DebugLogger).  Logging must not change what a call returns (seeded change
+// C10-10: the drop-logging path shrinking a read buffer that had become shared).
+type cliDiscard struct{ n *atomic.Int64 }
+
+func (d cliDiscard) Printf(format string, v ...interface{}) {
+	d.n.Add(int64(len(fmt.Sprintf(format, v...))))
+}
+
+type cliLogger6 struct{ cliDiscard }
+
+func (l cliLogger6) PrintMessage(prefix string, m *dhcpv6.Message) {
+	l.Printf("%s: %s", prefix, m.Summary())
+}
+
+func cliLogging(T time.Duration, n, bufCap int) bool {
+	return (int(T/time.Millisecond)+n+bufCap)&1 == 0
+}
+
 func newClient(v6 bool, conn *cliScriptConn, T time.Duration, n, bufCap int) sendAndReader {
+	logging := cliLogging(T, n, bufCap)
+	logged := new(atomic.Int64)
 	if v6 {
-		c, err := nclient6.NewWithConn(conn, clHW, nclient6.WithTimeout(T), nclient6.WithRetry(n))
+		opts := []nclient6.ClientOpt{nclient6.WithTimeout(T), nclient6.WithRetry(n)}
+		if logging {
+			opts = append(opts, nclient6.WithLogDroppedPackets(), func(c *nclient6.Client) {
+				f := reflect.ValueOf(c).Elem().FieldByName("logger")
+				if f.IsValid() {
+					reflect.NewAt(f.Type(), unsafe.Pointer(f.UnsafeAddr())).Elem().Set(reflect.ValueOf(cliLogger6{cliDiscard{logged}}))
+				}
+			})
+		}
+		c, err := nclient6.NewWithConn(conn, clHW, opts...)
 		if err != nil {
 			panic(err)
 		}
@@ -225,7 +259,11 @@ func newClient(v6 bool, conn *cliScriptConn, T time.Duration, n, bufCap int) sen
 		}
 		return cl6{c}
 	}
-	c, err := nclient4.NewWithConn(conn, clHW, nclient4.WithTimeout(T), nclient4.WithRetry(n))
+	opts4 := []nclient4.ClientOpt{nclient4.WithTimeout(T), nclient4.WithRetry(n)}
+	if logging {
+		opts4 = append(opts4, nclient4.WithLogger(nclient4.DebugLogger{Printfer: cliDiscard{logged}}))
+	}
+	c, err := nclient4.NewWithConn(conn, clHW, opts4...)
 	if err != nil {
 		panic(err)
 	}
